@@ -124,6 +124,29 @@ theorem Cov_information {P : Matrix n n ℝ} (H : Matrix m n ℝ) {R : Matrix m 
   rw [this, hmid, nonsing_inv_nonsing_inv _ hPu]
   exact ⟨rfl, hJ⟩
 
+/-- the posterior of a PD prior is PD (inverse of the PD information matrix) -/
+theorem Cov_posDef {P : Matrix n n ℝ} (H : Matrix m n ℝ) {R : Matrix m m ℝ}
+    (hP : P.PosDef) (hR : R.PosDef) : (Cov P H R).PosDef := by
+  rw [(Cov_information H hP hR).1]
+  have h1 : (P⁻¹).PosDef := hP.inv
+  have h2 : (Hᵀ * R⁻¹ * H).PosSemidef := by
+    have := hR.inv.posSemidef.mul_mul_conjTranspose_same Hᵀ
+    simpa using this
+  exact (Matrix.PosDef.add_posSemidef h1 h2).inv
+
+omit [DecidableEq n] in
+/-- time update of a PSD covariance with PD process noise is PD -/
+theorem pred_posDef_of_Q {P Q : Matrix n n ℝ} (F : Matrix n n ℝ)
+    (hP : P.PosSemidef) (hQ : Q.PosDef) : (F * P * Fᵀ + Q).PosDef := by
+  have h := hP.mul_mul_conjTranspose_same F
+  exact Matrix.PosDef.posSemidef_add (by simpa using h) hQ
+
+/-- time update of a PD covariance through an invertible `F` with PSD process noise is PD -/
+theorem pred_posDef_of_F {P Q : Matrix n n ℝ} (F : Matrix n n ℝ)
+    (hP : P.PosDef) (hQ : Q.PosSemidef) (hF : IsUnit F) : (F * P * Fᵀ + Q).PosDef := by
+  have h := hP.mul_mul_conjTranspose_same (B := F) (Matrix.vecMul_injective_iff_isUnit.2 hF)
+  exact Matrix.PosDef.add_posSemidef (by simpa using h) hQ
+
 theorem J_mul_K {P : Matrix n n ℝ} (H : Matrix m n ℝ) {R : Matrix m m ℝ}
     (hP : P.PosDef) (hR : R.PosDef) :
     (P⁻¹ + Hᵀ * R⁻¹ * H) * K P H R = Hᵀ * R⁻¹ := by
